@@ -27,7 +27,9 @@ pub fn eval(op: &str, a: &[&str]) -> Option<String> {
             let shape = parse_nats(a[0]); let idx = parse_nats(a[1]);
             let n: usize = shape.iter().product();
             let mut flat = 0usize; for (i, s) in idx.iter().zip(shape.iter()) { flat = flat * s + i; }
-            let mut unit = vec![0.0; n]; *unit.get_mut(flat)? = 1.0;
+            // optional fourth field: the weight of the source cell (default 1)
+            let w = if a.len() > 3 { f64::from_bits(u64::from_str_radix(a[3], 16).ok()?) } else { 1.0 };
+            let mut unit = vec![0.0; n]; *unit.get_mut(flat)? = w;
             let scs = Scs::new(unit, shape).ok()?;
             Some(match scs.project(parse_nats(a[2])) {
                 Ok(s) => format!("OK {}|{}", nats(s.shape()), bits(s.inner().as_slice())),
@@ -101,6 +103,10 @@ pub fn gen(ctx: &Ctx, rng: &mut Rng, out: &mut Vec<String>) {
         out.push(format!("c03.row\t{}\t{}\t{}", n + 1, k, m + 1));
     }
     out.push(format!("c03.row\t{},{}\t{},{}\t{},{}", 1101, 3, 540, 1, 551, 2));
+    // the same rows with source cells on other scales (frequencies, tiny and huge masses): the operator is linear
+    for (j, &(n, m, k)) in [(1029usize, 514usize, 500usize), (1000, 500, 333), (400, 200, 200), (170, 85, 60), (60, 30, 30)].iter().enumerate() {
+        for w in [3e-14f64, 5e-16, 1e-300, 1e300, 0.25] { if !ctx.tier_thorough && j >= 2 && w != 3e-14 { continue; } out.push(format!("c03.row\t{}\t{}\t{}\t{:016x}", n + 1, k, m + 1, w.to_bits())); }
+    }
     // every source size 1..=260 (thorough 600) once: the rows of the extreme and the middle source entries, projected to two chromosomes
     for n in 1..=(if ctx.tier_thorough { 600usize } else { 260 }) {
         for k in [0, n / 2, n] { out.push(format!("c03.row\t{}\t{}\t{}", n + 1, k, n.min(2) + 1)); }
